@@ -100,7 +100,12 @@ def execute(program, ch: Chooser) -> Result:  # noqa: C901, PLR0912, PLR0915
 
     def decide(args, kwargs):
         k = len(calls) + 1
-        kind = OUTCOMES[ch.choose(len(OUTCOMES), "outcome")]
+        if k > limit + 3:
+            # far beyond the allowed limit+1 calls: stop offering failures so that the choice
+            # tree stays finite (the surplus calls are reported by the attempts clause)
+            kind = "value"
+        else:
+            kind = OUTCOMES[ch.choose(len(OUTCOMES), "outcome")]
         rec = {
             "t": vtime.now(),
             "kind": kind,
